@@ -313,6 +313,102 @@ theorem cvx_items_wellformed (poly1 poly2 : Array (V2 K)) (eps : K) :
            | exact Or.inr (Or.inr ⟨_, by omega, rfl⟩)
            | exact Or.inr (Or.inl ⟨_, by omega, rfl⟩))
 
+/-! ## no crossing found: what reaches the containment fall-backs -/
+
+/-- as long as no intersection point was accepted, nothing has been emitted and `inflag` is still `Unknown` -/
+def CvxQuiet (st : CvxState K) : Prop := st.firstPointFound = false → st.inflag = .unknown ∧ st.out = #[]
+
+private theorem cvxInter_quiet (poly1 poly2 : Array (V2 K)) (eps : K) (a1 b1 a2 b2 : Nat) (st : CvxState K)
+    (h : CvxQuiet st) (hr : (cvxInter poly1 poly2 eps a1 b1 a2 b2 st).2 = false) :
+    CvxQuiet (cvxInter poly1 poly2 eps a1 b1 a2 b2 st).1 := by
+  unfold cvxInter at hr ⊢
+  simp only at hr ⊢
+  split
+  · split_ifs with c1 c2 c3 c4 <;> first | exact h | (intro hf; simp_all [CvxQuiet])
+  · split_ifs with c1
+    · rename_i heq; rw [heq] at hr; simp [c1] at hr
+    · exact h
+  · exact h
+
+private theorem quiet_adv1 (n : Nat) (s : CvxState K) (h : CvxQuiet s) : CvxQuiet (cvxAdv1 n s) := fun hf => h hf
+private theorem quiet_adv2 (n : Nat) (s : CvxState K) (h : CvxQuiet s) : CvxQuiet (cvxAdv2 n s) := fun hf => h hf
+
+private theorem quiet_emit1 (b : Nat) (s : CvxState K) (h : CvxQuiet s) : CvxQuiet (cvxEmit1 b s) := by
+  intro hf
+  unfold cvxEmit1 at hf ⊢
+  split_ifs at hf ⊢ with c
+  · have := h hf; rw [this.1] at c; cases c
+  · exact h hf
+
+private theorem quiet_emit2 (b : Nat) (s : CvxState K) (h : CvxQuiet s) : CvxQuiet (cvxEmit2 b s) := by
+  intro hf
+  unfold cvxEmit2 at hf ⊢
+  split_ifs at hf ⊢ with c
+  · have := h hf; rw [this.1] at c; cases c
+  · exact h hf
+
+private theorem cvxStep_quiet (poly1 poly2 : Array (V2 K)) (eps : K) (rev1 rev2 : Bool) (st : CvxState K)
+    (h : CvxQuiet st) :
+    match cvxStep poly1 poly2 eps rev1 rev2 st with
+    | .inl st' => CvxQuiet st'
+    | .inr r => r.2 = false → CvxQuiet r.1 := by
+  unfold cvxStep
+  simp only
+  split_ifs with hc hr
+  · exact fun _ => h
+  · exact fun hf => absurd (hr.symm.trans hf) (by decide)
+  all_goals
+    have hq := cvxInter_quiet poly1 poly2 eps _ _ _ _ st h (by simpa using hr)
+    try dsimp only
+    first
+      | exact fun hf => absurd hf (by decide)
+      | exact quiet_adv1 _ _ hq
+      | exact quiet_adv2 _ _ hq
+      | exact quiet_adv1 _ _ (quiet_emit1 _ _ hq)
+      | exact quiet_adv2 _ _ (quiet_emit2 _ _ hq)
+
+private theorem cvxLoop_quiet (poly1 poly2 : Array (V2 K)) (eps : K) (rev1 rev2 : Bool) :
+    ∀ (fuel : Nat) (st : CvxState K), CvxQuiet st →
+      (cvxLoop poly1 poly2 eps rev1 rev2 fuel st).2 = false → CvxQuiet (cvxLoop poly1 poly2 eps rev1 rev2 fuel st).1
+  | 0, st, h => fun _ => h
+  | fuel + 1, st, h => by
+    have hs := cvxStep_quiet poly1 poly2 eps rev1 rev2 st h
+    simp only [cvxLoop]
+    cases hx : cvxStep poly1 poly2 eps rev1 rev2 st with
+    | inl st' => rw [hx] at hs; exact cvxLoop_quiet poly1 poly2 eps rev1 rev2 fuel st' hs
+    | inr r => rw [hx] at hs; exact hs
+
+/-- **the containment fall-backs** (every scalar type, every input, every tolerance).  When the advance loop ends without
+a `return` and without having accepted an intersection point (`first_point_found = false`), **nothing has been emitted by
+the loop**, and the output of `convex_polygons_intersection_with_tolerances` is exactly
+* all vertices of `poly2`, each once, as `(None, Some(OnVertex(b)))` in input order (reversed for a clockwise `poly2`), when
+  the scan `poly1`-edges × `poly2`-points succeeds,
+* otherwise all vertices of `poly1`, each once, as `(Some(OnVertex(a)), None)`, when the symmetric scan succeeds
+  (**only one** of the two: polygons enclosing each other are output once — the corrected behaviour),
+* otherwise nothing.
+With `containScan_iff` / `convex_fallback_sound`: the emitted polygon lies on one closed side of every edge line of the other. -/
+theorem convex_no_crossing_output (poly1 poly2 : Array (V2 K)) (eps : K) :
+    let rev1 := decide (2 < poly1.size) && decide (orientation2d (ppt poly1 0) (ppt poly1 1) (ppt poly1 2) eps = .cw)
+    let rev2 := decide (2 < poly2.size) && decide (orientation2d (ppt poly2 0) (ppt poly2 1) (ppt poly2 2) eps = .cw)
+    let L := cvxLoop poly1 poly2 eps rev1 rev2 (4 * (poly1.size + poly2.size) + 4) ⟨0, 0, 0, 0, .unknown, false, #[]⟩
+    L.2 = false → L.1.firstPointFound = false →
+      (convexPolygonsIntersection poly1 poly2 eps).toList =
+        if containScan poly1 poly2 eps then
+          (List.range poly2.size).map fun b => (none, some (.onVertex (if rev2 then poly2.size - b - 1 else b)))
+        else if containScan poly2 poly1 eps then
+          (List.range poly1.size).map fun a => (some (.onVertex (if rev1 then poly1.size - a - 1 else a)), none)
+        else [] := by
+  intro rev1 rev2 L hret hfpf
+  have hq : CvxQuiet L.1 := cvxLoop_quiet poly1 poly2 eps rev1 rev2 _ _ (fun _ => ⟨rfl, rfl⟩) hret
+  have hout : L.1.out = #[] := (hq hfpf).2
+  unfold convexPolygonsIntersection
+  simp only
+  rw [if_neg (by intro h; exact absurd (h.symm.trans hret) (by decide)),
+    if_neg (by intro h; exact absurd (h.symm.trans hfpf) (by decide))]
+  have hout' : (cvxLoop poly1 poly2 eps rev1 rev2 (4 * (poly1.size + poly2.size) + 4)
+      ⟨0, 0, 0, 0, .unknown, false, #[]⟩).1.out = #[] := hout
+  split_ifs <;> simp [hout', rev1, rev2]
+
 /-! ## the containment fall-backs -/
 
 /-- invariant of the containment scan after the (edge, point) orientations `P` (skipped ones included):
@@ -466,4 +562,73 @@ theorem splitComponents_runs (poly1 poly2 : Array (V2 K)) (runs : List (List (Em
   simp
 
 end split
+
+/-! ## kernel-evaluated instances: non-vacuity, and two seeded variants refuted
+
+The theorems of this file hold for every `Num`; `intNum` is a toy scalar type (`Int`, truncating division) on which the
+kernel can evaluate the model by `decide`. -/
+section instances
+
+/-- a computable toy scalar type for kernel-evaluated examples -/
+@[reducible] def intNum : Num Int where
+  sqrt x := x
+  ofRat q := q.num / q.den
+  decLt a b := inferInstanceAs (Decidable (a < b))
+  decLe a b := inferInstanceAs (Decidable (a ≤ b))
+
+private def triSmall : Array (V2 Int) := #[⟨0,0⟩, ⟨4,0⟩, ⟨0,4⟩]
+private def triFar : Array (V2 Int) := #[⟨50,50⟩, ⟨60,50⟩, ⟨50,60⟩]
+private def triBig : Array (V2 Int) := #[⟨-40,-40⟩, ⟨80,-40⟩, ⟨-40,80⟩]
+private def triCut : Array (V2 Int) := #[⟨2,-2⟩, ⟨6,2⟩, ⟨2,6⟩]
+
+/-- non-vacuity of `convex_no_crossing_output`: for two far-apart triangles the loop ends without `return` and without an
+accepted point (both scans fail: empty output); for a triangle inside a big one the fall-back emits its 3 vertices -/
+example : letI := intNum
+    (cvxLoop triSmall triFar (0 : Int) false false 28 ⟨0, 0, 0, 0, .unknown, false, #[]⟩).2 = false ∧
+    (cvxLoop triSmall triFar (0 : Int) false false 28 ⟨0, 0, 0, 0, .unknown, false, #[]⟩).1.firstPointFound = false ∧
+    (convexPolygonsIntersection triSmall triFar (0 : Int)).size = 0 ∧
+    (convexPolygonsIntersection triSmall triBig (0 : Int)).size = 3 := by decide
+
+/-- non-vacuity of `cvx_items_wellformed` beyond vertex items: two crossing triangles produce intersection items
+(the output has more items than the 3 + 3 vertices could give alone and the loop accepted a point) -/
+example : letI := intNum
+    (cvxLoop triSmall triCut (0 : Int) false false 28 ⟨0, 0, 0, 0, .unknown, false, #[]⟩).1.firstPointFound = true ∧
+    0 < (convexPolygonsIntersection triSmall triCut (0 : Int)).size := by decide
+
+/-- non-vacuity of `containScan_iff` / `convex_fallback_sound`: the scan succeeds for the small triangle inside the big
+one and fails for the two crossing triangles -/
+example : letI := intNum
+    containScan triBig triSmall (0 : Int) = true ∧ containScan triSmall triCut (0 : Int) = false := by decide
+
+/-- the seeded variant of the accumulator of `polygons_intersection_points`: `result.push(curr_poly.clone())` without
+resetting `curr_poly` -/
+private def splitStepClone {K : Type} [Num K] (poly1 poly2 : Array (V2 K)) (acc : List (List (V2 K)) × List (V2 K)) :
+    Emit K → List (List (V2 K)) × List (V2 K)
+  | .fin => if acc.2.isEmpty then acc else (acc.1 ++ [acc.2], acc.2)
+  | e => splitStep poly1 poly2 acc e
+
+/-- **the seeded `clone()`-for-`mem::take` variant is refuted**: on a stream of two one-vertex components the real
+accumulator yields components of sizes `[1, 1]` (`splitComponents_runs`), the variant `[1, 2]` — the second component
+repeats the first -/
+theorem seeded_clone_variant_repeats_components :
+    letI := intNum
+    (splitComponents triSmall triFar [Emit.vtx 0 0, .fin, .vtx 1 1, .fin]).map List.length = [1, 1] ∧
+    (([Emit.vtx 0 0, .fin, .vtx 1 1, .fin].foldl (splitStepClone triSmall triFar) ([], [])).1).map List.length = [1, 2] := by
+  decide
+
+/-- the seeded variant of `compute_sorted_edge_intersections` that sorts the per-edge lists of **poly2** with the key of
+**poly1** (`a.edges[0]`, `a.locs[0]`) -/
+private def onEdgeSwappedKey {K : Type} [Num K] (I : List (IPoint K)) (e : Nat) : List (IPoint K) :=
+  sortByKey (fun ip => centeredBcoords ip.loc1 ip.e1) (I.filter fun ip => ip.edge 1 == e)
+
+/-- **the seeded swapped-sort-key variant is refuted**: two crossings on edge 0 of `poly2` at parameters `1 < 3` of that
+edge, lying on two edges of `poly1` at parameters `5 > 2`: the model lists them in the order of the parameter along the
+edge they are listed for (`onEdge_sorted`, ids `[0, 1]`), the variant in the opposite order (`[1, 0]`) -/
+theorem seeded_swapped_keys_variant_unsorted :
+    letI := intNum
+    let I : List (IPoint Int) := [⟨0, 0, 0, .onEdge 0 1 (-4) 5, .onEdge 0 1 0 1⟩, ⟨1, 1, 0, .onEdge 1 2 (-1) 2, .onEdge 0 1 (-2) 3⟩]
+    (onEdge I 1 0).map (·.id) = [0, 1] ∧ (onEdgeSwappedKey I 0).map (·.id) = [1, 0] := by
+  decide
+
+end instances
 end C15
